@@ -86,3 +86,15 @@ claim("C20",
       "over 4 label sets, overlapping selectors and all update sequences up to length 3; the real handler is driven with the same sequences over all 181 real field paths (chosen by reflection) and every observed value is checked by TLC.",
       "Trusted: TLC, fake client / recorder of the package tests, DefaultSLOCfg() as the source of defaults (a change inside it is invisible). Explicit nulls, empty lists, unknown keys not generated; extension strategies out of scope.",
       "DESIGN.md 5 C20")
+claim("C06",
+      "TLA+ spec NumaCpu (post-condition predicates CpuOK / NumaOK / MustSucceed / LedgerExact / RefWithinLimit / PolicyReportOK; transcription of tryBestToDistributeEvenly and of the full-core / spread verification): TLC exhaustive MC over all hint masks of 3-4 NUMA nodes, all available subsets of 8-CPU topologies and small allocate/update/release histories; real takeCPUs / resourceManager.Allocate-Update-Release / tryBestToDistributeEvenly results validated by TLC as ALLOWED results (trace validation)",
+      "TLC checks on the model that the transcribed NUMA split hands out exactly the request, never more than a node has free and succeeds whenever the hinted nodes together have enough (any hint mask), and that the accumulator's contract and the ledger invariants hold over small histories; "
+      "the real accumulator, resource manager and NUMA distribution are run on the same tables plus random histories (sharing limit 1-3, reserved CPUs, asymmetric free sets) and every logged CPU set / split / NodeAllocation is checked by TLC against the post-conditions and the from-scratch ledger.",
+      "Trusted: TLC, the package's topology builders. Symmetric topologies up to 16 CPUs; amplification ratio 1; completeness claimed only for divisible resources without CPU binding; Allocate+Update treated as one serialised step.",
+      "DESIGN.md 5 C06")
+claim("C18",
+      "TLA+ spec Rebalance (balance round as a process with running usage / headroom; predicates Src / An / Low / Fil / Stop / Z; transcription of classification, anomaly gating and the continue-condition): TLC exhaustive MC over 2-3 nodes, <= 4 pods, absolute and deviation thresholds, anomaly none/2, up to 5 rounds; recorded Evict calls of the real LowNodeLoad.Balance over successive rounds validated by TLC against the usage/threshold table recomputed from the logged inputs (trace validation)",
+      "TLC checks on the model that every eviction comes from a node measured above its high threshold (for the required CONSECUTIVE rounds when anomaly detection is on), with an underused node available and a pod passing the filters, that a source stops once back under the threshold or when headroom is used up, and that nothing is evicted in the early-exit situations; "
+      "the real plugin is run over several rounds on enumerated + random pools with a recording evictor and every call is checked by TLC.",
+      "Trusted: TLC, the package's test handle / fake NodeMetric lister / recording evictor. Single node pool, cpu+memory, integer-exact percent conversions, timeouts one hour away.",
+      "DESIGN.md 5 C18")
